@@ -13,6 +13,9 @@ pub struct SimF(pub f64);
 
 impl fmt::Debug for SimF {
     fn fmt(&self, f: &mut fmt::Formatter<'_>) -> fmt::Result {
+        // debug printing calls back into the user's type: a seam event (and a
+        // possible unwind point), never a value fault point
+        event(kind::DEBUG_FMT, self.0.to_bits(), 0, 0);
         fmt::Debug::fmt(&self.0, f)
     }
 }
